@@ -47,6 +47,7 @@ type World struct {
 	busyCount int
 
 	stdinText     Value
+	stdinPiped    Value
 	stdinTask     Value
 	stdinParseErr *Term
 	lastReplayErr Value
@@ -66,6 +67,7 @@ func NewWorld(ex *Exec) *World {
 		ergoPath + ".zzStdinTask":  w.mStdinTask,
 		ergoPath + ".zzStdinText":  func(ex *Exec, c *callCtx) Value { w.stdinText = c.args[0]; return nil },
 		ergoPath + ".zzLastJSON":   w.mLastJSON,
+		ergoPath + ".zzStdinPiped": func(ex *Exec, c *callCtx) Value { w.stdinPiped = c.args[0]; return nil },
 		"syscall.Open":            w.mSysOpen,
 		"syscall.Flock":           w.mFlock,
 		"syscall.Close":           func(ex *Exec, c *callCtx) Value { return NilRef() },
@@ -477,6 +479,9 @@ func (w *World) mLastJSON(ex *Exec, c *callCtx) Value {
 }
 
 func (w *World) mStdinPiped(ex *Exec, c *callCtx) Value {
+	if w.stdinPiped != nil {
+		return w.stdinPiped
+	}
 	return ex.nondet("world.stdinIsPiped", "bool")
 }
 
@@ -494,7 +499,9 @@ func (w *World) mParseTaskInput(ex *Exec, c *callCtx) Value {
 	sig := c.fn.Signature
 	vt := sig.Results().At(1).Type()
 	verr := ex.havoc("world.stdin.verr", vt, havocSpec{def: 0, by: map[string]int{}, constKeys: map[string]bool{}}, "")
-	return TupleV{E: []Value{MergeV(w.stdinParseErr, NilRef(), w.stdinTask), MergeV(w.stdinParseErr, verr, NilRef())}}
+	// nothing to parse when stdin is a terminal ("no input: pipe JSON to stdin")
+	perr := Or(w.stdinParseErr, Not(w.mStdinPiped(ex, c).(BoolV).T))
+	return TupleV{E: []Value{MergeV(perr, NilRef(), w.stdinTask), MergeV(perr, verr, NilRef())}}
 }
 
 func (w *World) mReadBody(ex *Exec, c *callCtx) Value {
@@ -508,6 +515,8 @@ func (w *World) mReadBody(ex *Exec, c *callCtx) Value {
 
 func (w *World) mValidateResultPath(ex *Exec, c *callCtx) Value {
 	bad := ex.nondet("world.resultpath.bad", "bool").(BoolV).T
+	// the empty path cleans to "." (a directory) and is always rejected by the real function
+	bad = Or(bad, Eq(c.args[1].(StrV).T, IntC(0)))
 	clean := StrV{T: UF("cleanpath", SInt, c.args[1].(StrV).T)}
 	return TupleV{E: []Value{MergeV(bad, StrLit(""), clean), MergeV(bad, ex.newError("resultpath", nil), NilRef())}}
 }
